@@ -510,3 +510,12 @@ def strain_cache(E, L):
         for k in range(3):
             E.prove('cache.rotation_follows_new_G[%d,%d]' % (j, k), st.rotation[0, j, k] == M.rotation_c(G2)[0, j, k])
             E.prove('cache.strain_follows_new_G[%d,%d]' % (j, k), st.strain[0, j, k] == M.strain_c(G2)[0, j, k])
+
+# ----------------------------------------------------------------------------
+# callee contracts this property's proofs ASSUME are part of this check (modular verification carries the property only if the assumed contract is itself
+# discharged on the same tree): the groups of the property that establishes them run here as well, reported under this property when they fail.
+# the analysis tools start from core.displacement; displacement.py is one of this property's files
+from . import c02 as _c02
+for _g in _c02.GROUPS:
+    if _g.name in ('displacement',):
+        GROUPS.append(_g)
